@@ -95,8 +95,16 @@ def run_scale(ctx):
 
     twins_l = [{"price": 10}, {"price": 12.5}, [1, 2], [0], 1, 10, {"a": [True]}, [[1.0]], "1", None]
     twins_r = [{"price": 10.0}, {"price": 12.5}, [True, 2], [-0.0], True, 10.0, {"a": [1]}, [[1]], 1.0, 0]
-    for n in (5, 31, 32, 33, 64, 100, 1000):
-        doc = {"L": copy.deepcopy(twins_l), "R": copy.deepcopy(twins_r) + [{"filler": i} for i in range(n - len(twins_r))]}
+    import collections
+
+    # (and, every other round, values that are the same JSON value held in different Python container types - a tuple
+    # against a list, mappings of another type or written in another order: the text form of such a document no longer
+    # has the difference, so that form is left out there)
+    types_l = [(3, 4), (), {"o": (5,)}, collections.OrderedDict([("a", 1), ("b", 2)]), [6, (7,)], collections.UserList([8])]
+    types_r = [[3, 4], [], {"o": [5]}, collections.OrderedDict([("b", 2), ("a", 1)]), [6, [7]], [8]]
+    for n_i, n in enumerate((5, 31, 32, 33, 64, 100, 1000, 6, 34, 65, 101)):
+        other_types = n_i % 2 == 1
+        doc = {"L": copy.deepcopy(twins_l) + (copy.deepcopy(types_l) if other_types else []), "R": copy.deepcopy(twins_r) + (copy.deepcopy(types_r) if other_types else []) + [{"filler": i} for i in range(n - len(twins_r))]}
         for text in ("$.L[*] & $.R[*]", "$.L[*] & $.R[*] | $.L[0]", "$.R[*] & $.L[*]", "$.L[*] | $.R[*] & $.L[*]"):
             p_ = jsonpath.compile(text)
             ref_ = impl.call(lambda: [canon(v) for v in p_.findall(doc)])
@@ -104,6 +112,8 @@ def run_scale(ctx):
             for ename, fn in (("finditer", lambda: [canon(m.obj) for m in p_.finditer(doc)]), ("query", lambda: [canon(v) for v in p_.query(doc).values()]), ("module.finditer", lambda: [canon(m.obj) for m in jsonpath.finditer(text, doc)]),
                               ("match", lambda: [canon(p_.match(doc).obj)] if p_.match(doc) is not None else []), ("findall(text)", lambda: [canon(v) for v in p_.findall(json.dumps(doc))]),
                               ("findall_async", lambda: [canon(v) for v in __import__("asyncio").run(p_.findall_async(doc))]), ("finditer_async", lambda: __import__("asyncio").run(_alist(p_, doc)))):
+                if other_types and ename == "findall(text)":
+                    continue
                 o = impl.call(fn)
                 want_ = ref_.value[:1] if ename == "match" and ref_.ok else ref_.value
                 if ref_.ok and (not o.ok or o.value != want_):
